@@ -3,9 +3,11 @@ package racecheck
 
 import (
 	"os"
+	"runtime"
 	"sync"
 	"sync/atomic"
 	"testing"
+	"time"
 
 	"github.com/welllog/golib/listz"
 )
@@ -83,4 +85,74 @@ func TestSyncListRaceStress(t *testing.T) {
 	if n := l.Len(); n != 0 {
 		t.Errorf("Len() = %d at the end", n)
 	}
+}
+
+// Element types of size zero (struct{}, [0]int): code gated on the type parameter never runs with SyncList[*int].  Values
+// carry no identity here; what can be observed is the count: Len() is never negative, Pop succeeds exactly as often as
+// Push was called, and the list is empty at the end.  One slow producer, poppers polling a list that is empty most of
+// the time, observers reading Len all the while.
+func TestSyncListZeroSizeElements(t *testing.T) {
+	dur := 1500 * time.Millisecond
+	if os.Getenv("VERIF_TIER") == "thorough" {
+		dur = 20 * time.Second
+	}
+	run := func(t *testing.T, push func(), pop func() bool, length func() int) {
+		var stop int32
+		var neg, pushed, popped int64
+		var wg sync.WaitGroup
+		for c := 0; c < 4; c++ {
+			wg.Add(1)
+			go func() {
+				defer wg.Done()
+				for atomic.LoadInt32(&stop) == 0 {
+					if pop() {
+						atomic.AddInt64(&popped, 1)
+					}
+				}
+			}()
+		}
+		wg.Add(1)
+		go func() {
+			defer wg.Done()
+			for atomic.LoadInt32(&stop) == 0 {
+				push()
+				atomic.AddInt64(&pushed, 1)
+				runtime.Gosched()
+			}
+		}()
+		for o := 0; o < 2; o++ {
+			wg.Add(1)
+			go func() {
+				defer wg.Done()
+				for atomic.LoadInt32(&stop) == 0 {
+					if n := length(); n < 0 {
+						atomic.StoreInt64(&neg, int64(n))
+					}
+				}
+			}()
+		}
+		time.Sleep(dur)
+		atomic.StoreInt32(&stop, 1)
+		wg.Wait()
+		if n := atomic.LoadInt64(&neg); n != 0 {
+			t.Errorf("Len() returned %d", n)
+		}
+		for pop() {
+			popped++
+		}
+		if popped != pushed {
+			t.Errorf("%d values pushed, %d popped", pushed, popped)
+		}
+		if n := length(); n != 0 {
+			t.Errorf("Len() = %d on the drained list", n)
+		}
+	}
+	t.Run("struct{}", func(t *testing.T) {
+		l := listz.NewSync[struct{}]()
+		run(t, func() { l.Push(struct{}{}) }, func() bool { _, ok := l.Pop(); return ok }, l.Len)
+	})
+	t.Run("[0]int", func(t *testing.T) {
+		l := listz.NewSync[[0]int]()
+		run(t, func() { l.Push([0]int{}) }, func() bool { _, ok := l.Pop(); return ok }, l.Len)
+	})
 }
